@@ -252,9 +252,14 @@ class QuadraticModel(QuadraticViewsMixin):
 
     def __isub__(self, other: typing.Union['QuadraticModel', Bias]) -> 'QuadraticModel':
         if isinstance(other, QuadraticModel):
+            if other is self:
+                other = self.copy()  # otherwise it would be negated along with self
             self.scale(-1)
-            self.update(other)
-            self.scale(-1)
+            try:
+                self.update(other)
+            finally:
+                # also when the update is rejected, e.g. for conflicting bounds
+                self.scale(-1)
             return self
         if isinstance(other, Number):
             self.offset -= other
